@@ -383,3 +383,370 @@ Section Generic.
     change [b] with ([] ++ [b]). rewrite scan_iter_loop_orbit by exact Hf. reflexivity.
   Qed.
 End Generic.
+
+(* ------------------------------------------------------------------ pure verbs: the fold as a value *)
+Section Pure.
+  Variable S : Type.
+
+  Lemma py_reduce_pure : forall (g : val -> val -> res val) xs x (s : S),
+    py_reduce (pure2 g) x xs s = (fold_res g x xs, s).
+  Proof.
+    induction xs as [|y xs IH]; intros x s; simpl.
+    - reflexivity.
+    - unfold bind, pure2, lift at 1. destruct (g x y) as [v|e|]; try reflexivity. apply IH.
+  Qed.
+
+  Lemma s_over_pure : forall (g : val -> val -> res val) a (s : S),
+    is_atom a = false -> s_over (pure2 g) a s = (over_pure g (items a), s).
+  Proof.
+    intros g a s Ha. unfold s_over. rewrite Ha.
+    destruct (items a) as [|x xs] eqn:Hit; [exfalso; eapply nonatom_items; eauto|].
+    rewrite <- py_reduce_nest. apply py_reduce_pure.
+  Qed.
+End Pure.
+
+(* ------------------------------------------------------------------ the operator shortcuts *)
+Lemma ints_of_spec : forall xs zs, ints_of xs = Some zs -> xs = map VInt zs.
+Proof.
+  induction xs as [|x xs IH]; intros zs H; simpl in H.
+  - inversion H. reflexivity.
+  - destruct x; try discriminate. destruct (ints_of xs) as [zs'|]; try discriminate.
+    inversion H. simpl. f_equal. apply IH. reflexivity.
+Qed.
+
+Lemma rows_of_spec : forall xs rows, rows_of xs = Some rows -> xs = map vints rows.
+Proof.
+  induction xs as [|x xs IH]; intros rows H; simpl in H.
+  - inversion H. reflexivity.
+  - destruct x; try discriminate.
+    destruct (ints_of l) as [zs|] eqn:Hz; try discriminate.
+    destruct (rows_of xs) as [rs|]; try discriminate.
+    inversion H. simpl. f_equal.
+    + unfold vints. f_equal. apply ints_of_spec. exact Hz.
+    + apply IH. reflexivity.
+Qed.
+
+Lemma fold_res_ints : forall u zs z,
+  fold_res (ew2 u) (VInt z) (map VInt zs) = Ok (VInt (fold_left u zs z)).
+Proof. induction zs as [|y zs IH]; intros z; simpl; [reflexivity|apply IH]. Qed.
+
+(* element-wise operation on two integer rows of the same length *)
+Lemma ew2_rows : forall u r1 r2, List.length r1 = List.length r2 ->
+  ew2 u (vints r1) (vints r2) = Ok (vints (zipw u r1 r2)).
+Proof.
+  intros u r1. unfold vints.
+  induction r1 as [|a r1 IH]; intros r2 Hlen; destruct r2 as [|b r2]; try discriminate.
+  - reflexivity.
+  - simpl in Hlen. injection Hlen as Hlen. specialize (IH r2 Hlen).
+    cbn [map ew2] in IH |- *. cbn [is_list Bool.eqb negb ew_sl].
+    cbn [ew2] in IH.
+    match type of IH with ?lhs = _ => match goal with |- context [lhs] => rewrite IH end end.
+    reflexivity.
+Qed.
+
+Lemma zipw_length : forall A (u : A -> A -> A) r1 r2, List.length r1 = List.length r2 ->
+  List.length (zipw u r1 r2) = List.length r1.
+Proof. intros. unfold zipw. rewrite map_length, combine_length, <- H. apply Nat.min_id. Qed.
+
+Lemma fold_res_rows : forall u n rows r0,
+  List.length r0 = n -> same_len n rows = true ->
+  fold_res (ew2 u) (vints r0) (map vints rows) = Ok (vints (fold_left (zipw u) rows r0)).
+Proof.
+  intros u n rows. induction rows as [|r rows IH]; intros r0 H0 Hs; cbn [map fold_res fold_left].
+  - reflexivity.
+  - simpl in Hs. apply andb_prop in Hs. destruct Hs as [Hr Hs]. apply Nat.eqb_eq in Hr.
+    rewrite ew2_rows by congruence. apply IH; [|exact Hs].
+    rewrite zipw_length by congruence. exact H0.
+Qed.
+
+(* reduce along axis 0, column by column  =  left fold of the row-wise operation *)
+Section Axis0.
+  Variable A : Type.
+  Variable u : A -> A -> A.
+  Variable d : A.
+
+  Lemma nth_zipw : forall r1 r2 j, List.length r1 = List.length r2 -> (j < List.length r1)%nat ->
+    nth j (zipw u r1 r2) d = u (nth j r1 d) (nth j r2 d).
+  Proof.
+    induction r1 as [|a r1 IH]; intros r2 j Hl Hj; destruct r2 as [|b r2]; simpl in *; try lia.
+    destruct j; [reflexivity|]. apply IH; lia.
+  Qed.
+
+  Lemma fold_zipw_length : forall rows acc n,
+    List.length acc = n -> forallb (fun r => Nat.eqb (List.length r) n) rows = true ->
+    List.length (fold_left (zipw u) rows acc) = n.
+  Proof.
+    induction rows as [|r rows IH]; intros acc n Ha Hs; simpl; [exact Ha|].
+    simpl in Hs. apply andb_prop in Hs. destruct Hs as [Hr Hs]. apply Nat.eqb_eq in Hr.
+    apply IH; [|exact Hs]. rewrite zipw_length by congruence. exact Ha.
+  Qed.
+
+  Lemma nth_fold_zipw : forall rows acc n j,
+    List.length acc = n -> forallb (fun r => Nat.eqb (List.length r) n) rows = true -> (j < n)%nat ->
+    nth j (fold_left (zipw u) rows acc) d = fold_left u (map (fun r => nth j r d) rows) (nth j acc d).
+  Proof.
+    induction rows as [|r rows IH]; intros acc n j Ha Hs Hj; simpl; [reflexivity|].
+    simpl in Hs. apply andb_prop in Hs. destruct Hs as [Hr Hs]. apply Nat.eqb_eq in Hr.
+    rewrite (IH (zipw u acc r) n j); [|rewrite zipw_length by congruence; exact Ha|exact Hs|exact Hj].
+    rewrite nth_zipw by (congruence || lia). reflexivity.
+  Qed.
+
+  Lemma list_as_nth_map : forall (l : list A) n, List.length l = n ->
+    l = map (fun j => nth j l d) (seq 0 n).
+  Proof.
+    intros l n Hn. apply (nth_ext _ _ d d).
+    - rewrite map_length, seq_length. exact Hn.
+    - intros j Hj. rewrite Hn in Hj.
+      rewrite (nth_indep (map (fun j0 => nth j0 l d) (seq 0 n)) d ((fun j0 => nth j0 l d) 0%nat))
+        by (rewrite map_length, seq_length; exact Hj).
+      etransitivity; [|symmetry; apply (map_nth (fun j0 => nth j0 l d) (seq 0 n) 0%nat j)].
+      cbv beta. rewrite seq_nth by exact Hj. reflexivity.
+  Qed.
+
+  Theorem reduce_axis0_is_fold : forall n r0 rows,
+    List.length r0 = n -> forallb (fun r => Nat.eqb (List.length r) n) rows = true ->
+    reduce_axis0 u d n (r0 :: rows) = fold_left (zipw u) rows r0.
+  Proof.
+    intros n r0 rows H0 Hs. unfold reduce_axis0, transpose.
+    rewrite (list_as_nth_map (fold_left (zipw u) rows r0) n) by (apply fold_zipw_length; assumption).
+    rewrite map_map. apply map_ext_in. intros j Hj. apply in_seq in Hj.
+    unfold col. cbn [map fold1]. symmetry. apply (nth_fold_zipw rows r0 n j); try assumption. lia.
+  Qed.
+End Axis0.
+
+Lemma obj_reduce_fold : forall u xs x, obj_reduce u x xs = fold_res (ew2 u) x xs.
+Proof.
+  induction xs as [|y xs IH]; intros x; simpl; [reflexivity|].
+  destruct (ew2 u x y); try reflexivity. apply IH.
+Qed.
+
+Lemma classify_vec : forall xs zs, classify xs = IntVec zs -> xs = map VInt zs.
+Proof.
+  intros xs zs H. unfold classify in H. destruct xs as [|x xs]; try discriminate.
+  destruct x; try discriminate.
+  - destruct (ints_of (VInt z :: xs)) eqn:Hi; try discriminate. inversion H. subst. apply ints_of_spec. exact Hi.
+  - destruct (rows_of (VList l :: xs)); try discriminate. destruct (same_len _ _); discriminate.
+Qed.
+
+Lemma classify_mat : forall xs n rows, classify xs = IntMat n rows ->
+  xs = map vints rows /\ exists r0 rest, rows = r0 :: rest /\ List.length r0 = n /\ same_len n rest = true.
+Proof.
+  intros xs n rows H. unfold classify in H. destruct xs as [|x xs]; try discriminate.
+  destruct x; try discriminate.
+  - destruct (ints_of (VInt z :: xs)); discriminate.
+  - destruct (rows_of (VList l :: xs)) as [rs|] eqn:Hr; try discriminate.
+    destruct (same_len (List.length l) rs) eqn:Hs; try discriminate.
+    inversion H. subst. split; [apply rows_of_spec; exact Hr|].
+    simpl in Hr. destruct (ints_of l) as [zs|] eqn:Hz; try discriminate.
+    destruct (rows_of xs) as [rs'|]; try discriminate. inversion Hr. subst.
+    exists zs, rs'. split; [reflexivity|].
+    simpl in Hs. apply andb_prop in Hs. destruct Hs as [H1 H2]. apply Nat.eqb_eq in H1.
+    split; [exact H1|]. exact H2.
+Qed.
+
+(* np.<ufunc>.reduce(a) is the left fold of the element-wise extension of the scalar operation,
+   for EVERY operand: integer vectors, integer matrices (reduce along axis 0), and object arrays *)
+Theorem np_reduce_is_fold : forall u xs, xs <> [] -> np_reduce u xs = over_pure (ew2 u) xs.
+Proof.
+  intros u xs Hne. unfold np_reduce. destruct (classify xs) as [zs|n rows|] eqn:Hc.
+  - apply classify_vec in Hc. subst. destruct zs as [|z zs]; [exfalso; apply Hne; reflexivity|].
+    cbn [map over_pure fold1]. rewrite fold_res_ints. reflexivity.
+  - apply classify_mat in Hc. destruct Hc as [Hx [r0 [rest [Hrows [H0 Hs]]]]]. subst.
+    cbn [map over_pure]. rewrite (fold_res_rows u (List.length r0)) by (reflexivity || exact Hs).
+    f_equal. f_equal. apply reduce_axis0_is_fold; [reflexivity|exact Hs].
+  - destruct xs as [|x xs]; [congruence|]. simpl. apply obj_reduce_fold.
+Qed.
+
+(* np.min / np.max of an integer vector is the left fold of the dyad *)
+Lemma np_extreme_is_fold : forall (u : Z -> Z -> Z),
+  (forall x y z, u x (u y z) = u (u x y) z) -> (forall x y, u x y = u y x) ->
+  forall zs, np_extreme u zs = fold1 u 0 zs.
+Proof.
+  intros u Hassoc Hcomm zs. destruct zs as [|z zs]; [reflexivity|].
+  simpl. symmetry. apply fold_symmetric; [exact Hassoc|intro y; apply Hcomm].
+Qed.
+
+(* ,/a on an integer vector is a, on an integer matrix the concatenation of its rows *)
+Lemma fold_join_ints : forall zs acc,
+  fold_res join (vints acc) (map VInt zs) = Ok (vints (acc ++ zs)).
+Proof.
+  induction zs as [|z zs IH]; intros acc; simpl.
+  - rewrite app_nil_r. reflexivity.
+  - unfold vints at 1. cbn [join]. change (VList (map VInt acc ++ [VInt z])) with (VList (map VInt acc ++ map VInt [z])).
+    rewrite <- map_app. fold (vints (acc ++ [z])). rewrite IH. rewrite <- app_assoc. reflexivity.
+Qed.
+
+Lemma fold_join_rows : forall rows acc,
+  fold_res join (vints acc) (map vints rows) = Ok (vints (acc ++ List.concat rows)).
+Proof.
+  induction rows as [|r rows IH]; intros acc; simpl.
+  - rewrite app_nil_r. reflexivity.
+  - unfold vints at 1 2. cbn [join]. rewrite <- map_app. fold (vints (acc ++ r)).
+    rewrite IH. rewrite <- app_assoc. reflexivity.
+Qed.
+
+Section Shortcuts.
+  Variable S : Type.
+
+  Definition arith_ops : list (string * (Z -> Z -> Z)) :=
+    [("+"%string, Z.add); ("-"%string, Z.sub); ("*"%string, Z.mul)].
+
+  (* +/a -/a */a by ufunc.reduce = the expansion with the operator's own semantics, every operand *)
+  Theorem over_shortcut_arith : forall op u (a : val) (s : S),
+    In (op, u) arith_ops ->
+    m_over over_table_model (Some op) (pure2 (ew2 u)) a s = s_over (pure2 (ew2 u)) a s.
+  Proof.
+    intros op u a s Hin. unfold m_over.
+    destruct (is_atom a) eqn:Ha; [unfold s_over; rewrite Ha; reflexivity|].
+    rewrite s_over_pure by exact Ha.
+    destruct (items a) as [|x [|y xs]] eqn:Hit.
+    - exfalso; eapply nonatom_items; eauto.
+    - reflexivity.
+    - assert (Hsc : over_shortcut over_table_model (Some op) (x :: y :: xs) = Some (np_reduce u (x :: y :: xs))).
+      { simpl in Hin. destruct Hin as [H|[H|[H|[]]]]; inversion H; subst; reflexivity. }
+      rewrite Hsc. unfold lift. rewrite np_reduce_is_fold by discriminate. reflexivity.
+  Qed.
+
+  (* &/a |/a: np.min / np.max on integer vectors, the generic fold otherwise *)
+  Theorem over_shortcut_minmax : forall op u (a : val) (s : S),
+    In (op, u) [("&"%string, Z.min); ("|"%string, Z.max)] ->
+    m_over over_table_model (Some op) (pure2 (ew2 u)) a s = s_over (pure2 (ew2 u)) a s.
+  Proof.
+    intros op u a s Hin. unfold m_over.
+    destruct (is_atom a) eqn:Ha; [unfold s_over; rewrite Ha; reflexivity|].
+    rewrite s_over_pure by exact Ha.
+    destruct (items a) as [|x [|y xs]] eqn:Hit.
+    - exfalso; eapply nonatom_items; eauto.
+    - reflexivity.
+    - assert (Hsc : over_shortcut over_table_model (Some op) (x :: y :: xs)
+                    = match classify (x :: y :: xs) with IntVec zs => Some (Ok (VInt (np_extreme u zs))) | _ => None end).
+      { simpl in Hin. destruct Hin as [H|[H|[]]]; inversion H; subst; reflexivity. }
+      rewrite Hsc. destruct (classify (x :: y :: xs)) as [zs| |] eqn:Hc.
+      + unfold lift. apply classify_vec in Hc. rewrite Hc.
+        destruct zs as [|z zs]; [discriminate|]. cbn [map over_pure]. rewrite fold_res_ints.
+        f_equal. f_equal. f_equal.
+        simpl in Hin. destruct Hin as [H|[H|[]]]; inversion H; subst.
+        * apply (np_extreme_is_fold Z.min Z.min_assoc Z.min_comm (z :: zs)).
+        * apply (np_extreme_is_fold Z.max Z.max_assoc Z.max_comm (z :: zs)).
+      + rewrite py_reduce_pure. reflexivity.
+      + rewrite py_reduce_pure. reflexivity.
+  Qed.
+
+  (* ,/a: the array itself (vector) or the concatenated rows (matrix), the generic fold otherwise *)
+  Theorem over_shortcut_join : forall (a : val) (s : S),
+    m_over over_table_model (Some ","%string) (pure2 join) a s = s_over (pure2 join) a s.
+  Proof.
+    intros a s. unfold m_over.
+    destruct (is_atom a) eqn:Ha; [unfold s_over; rewrite Ha; reflexivity|].
+    rewrite s_over_pure by exact Ha.
+    destruct (items a) as [|x [|y xs]] eqn:Hit.
+    - exfalso; eapply nonatom_items; eauto.
+    - reflexivity.
+    - change (over_shortcut over_table_model (Some ","%string) (x :: y :: xs))
+        with (match classify (x :: y :: xs) with
+              | IntVec zs => Some (Ok (vints zs))
+              | IntMat _ rows => Some (Ok (vints (List.concat rows)))
+              | Other => None
+              end).
+      destruct (classify (x :: y :: xs)) as [zs|n rows|] eqn:Hc.
+      + unfold lift. apply classify_vec in Hc. rewrite Hc.
+        destruct zs as [|z [|z2 zs]]; try discriminate.
+        cbn [map over_pure fold_res join].
+        change (VList [VInt z; VInt z2]) with (vints [z; z2]). rewrite fold_join_ints. reflexivity.
+      + unfold lift. apply classify_mat in Hc. destruct Hc as [Hx [r0 [rest [Hrows [H0 Hs]]]]].
+        rewrite Hx, Hrows. cbn [map over_pure]. rewrite fold_join_rows. reflexivity.
+      + rewrite py_reduce_pure. reflexivity.
+  Qed.
+End Shortcuts.
+
+(* ------------------------------------------------------------------ chains compose left to right *)
+Section Chains.
+  Variable S : Type.
+  Variables ot st : table.
+
+  Lemma chain_rest_snoc : forall fuel op advs (g : val -> M S val) s0,
+    chain_rest ot st fuel op g (advs ++ [s0]) = adverb1 ot st fuel s0 op (V1 (chain_rest ot st fuel op g advs)).
+  Proof.
+    intros fuel op advs. induction advs as [|x advs IH]; intros g s0; simpl; [reflexivity|apply IH].
+  Qed.
+
+  Theorem chain_snoc : forall fuel op (v : verb S) a1 advs s0,
+    m_chain ot st fuel op v ((a1 :: advs) ++ [s0])
+    = adverb1 ot st fuel s0 op (V1 (m_chain ot st fuel op v (a1 :: advs))).
+  Proof. intros. simpl. apply chain_rest_snoc. Qed.
+
+  Theorem chain_single : forall fuel op (v : verb S) a1, m_chain ot st fuel op v [a1] = adverb1 ot st fuel a1 op v.
+  Proof. reflexivity. Qed.
+End Chains.
+
+(* ------------------------------------------------------------------ Converge: termination and result along the orbit *)
+Section Converge.
+  Variable g : val -> res val.
+  Variable x : nat -> val.          (* the orbit: x 0 = a, x (k+1) = g (x k) *)
+  Variable n : nat.
+  Hypothesis Hn : (1 <= n)%nat.
+  Hypothesis Horbit : forall k, (k <= n)%nat -> g (x k) = Ok (x (Datatypes.S k)).
+  Hypothesis Hmoving : forall k, (1 <= k < n)%nat -> conv_eq (x k) (x (Datatypes.S k)) = false.
+  Hypothesis Hfix : conv_eq (x n) (x (Datatypes.S n)) = true.
+
+  Definition calls_of (from len : nat) : list call := map (fun k => Call1 (x k)) (seq from len).
+
+  Lemma converge_loop_orbit : forall d j fuel log,
+    (j + d = n)%nat -> (1 <= j)%nat -> (d < fuel)%nat ->
+    converge_loop fuel (logged1 g) (x j) (x (Datatypes.S j)) log
+    = (Ok (x n), log ++ calls_of (Datatypes.S j) d).
+  Proof.
+    induction d as [|d IH]; intros j fuel log Hj H1 Hf; destruct fuel as [|fuel]; try lia.
+    - assert (j = n) by lia. subst j. cbn [converge_loop]. rewrite Hfix.
+      unfold ret, calls_of. simpl. rewrite app_nil_r. reflexivity.
+    - cbn [converge_loop]. rewrite Hmoving by lia.
+      unfold bind, logged1. rewrite Horbit by lia.
+      rewrite (IH (Datatypes.S j) fuel) by lia.
+      unfold calls_of. cbn [seq map]. rewrite <- app_assoc. reflexivity.
+  Qed.
+
+  Theorem converge_terminates : forall fuel log,
+    (n <= fuel)%nat ->
+    m_converge fuel (logged1 g) (x 0%nat) log = (Ok (x n), log ++ calls_of 0 (Datatypes.S n)).
+  Proof.
+    intros fuel log Hf. unfold m_converge, bind, logged1.
+    rewrite Horbit by lia. rewrite Horbit by lia.
+    rewrite (converge_loop_orbit (n - 1) 1 fuel) by lia.
+    unfold calls_of. rewrite <- !app_assoc. f_equal.
+    replace (Datatypes.S n) with (2 + (n - 1))%nat by lia.
+    rewrite seq_app, map_app. reflexivity.
+  Qed.
+End Converge.
+
+(* ------------------------------------------------------------------ While: termination and result along the orbit *)
+Section While.
+  Variable p g : val -> res val.
+  Variable x : nat -> val.
+  Variable n : nat.
+  Hypothesis Horbit : forall k, (k < n)%nat -> g (x k) = Ok (x (Datatypes.S k)).
+  Hypothesis Htrue : forall k, (k < n)%nat -> exists t, p (x k) = Ok t /\ truthy t = Ok true.
+  Hypothesis Hfalse : exists t, p (x n) = Ok t /\ truthy t = Ok false.
+
+  Definition while_calls (from len : nat) : list call :=
+    flat_map (fun k => [CallP (x k); Call1 (x k)]) (seq from len).
+
+  Lemma while_loop_orbit : forall d j fuel log,
+    (j + d = n)%nat -> (d < fuel)%nat ->
+    while_loop fuel (loggedp p) (logged1 g) (x j) log
+    = (Ok (x n), log ++ while_calls j d ++ [CallP (x n)]).
+  Proof.
+    induction d as [|d IH]; intros j fuel log Hj Hf; destruct fuel as [|fuel]; try lia.
+    - assert (j = n) by lia. subst j. cbn [while_loop]. unfold bind, loggedp.
+      destruct Hfalse as [t [Hp Ht]]. rewrite Hp, Ht. reflexivity.
+    - cbn [while_loop]. unfold bind at 1. unfold loggedp at 1.
+      destruct (Htrue j) as [t [Hp Ht]]; [lia|]. rewrite Hp, Ht.
+      unfold bind, logged1. rewrite Horbit by lia.
+      rewrite (IH (Datatypes.S j) fuel) by lia.
+      unfold while_calls. cbn [seq flat_map]. rewrite <- !app_assoc. reflexivity.
+  Qed.
+
+  Theorem while_terminates : forall fuel log,
+    (n < fuel)%nat ->
+    m_while fuel (loggedp p) (logged1 g) (x 0%nat) log = (Ok (x n), log ++ while_calls 0 n ++ [CallP (x n)]).
+  Proof. intros. unfold m_while. apply while_loop_orbit; lia. Qed.
+End While.
